@@ -35,6 +35,10 @@ type c09Case struct {
 	Kind     string      `json:"kind"`
 	Opt      kvh.Opt     `json:"options"`
 	Progs    [][]c09Call `json:"programs"`
+	// the goroutines start on a database that has Pre behind it, then (optionally) a Merge, then a restart
+	Pre       []c09Call `json:"pre,omitempty"`
+	PreMerge  bool      `json:"preMerge,omitempty"`
+	PreReopen bool      `json:"preReopen,omitempty"`
 }
 
 var c09Keys = []string{"k", "j", "ab", "c", "b\x00", "zz"}
@@ -215,6 +219,33 @@ func runC09(c *c09Case) (feat map[string]bool, fail *kvh.Fail) {
 	if err != nil {
 		return feat, &kvh.Fail{Sig: "open-error", Msg: err.Error()}
 	}
+	for _, call := range c.Pre {
+		if err := c09Exec(db, call); err != nil {
+			_ = db.Close()
+			return feat, &kvh.Fail{Sig: "internal-error", Msg: fmt.Sprintf("prehistory (single goroutine): %v", err)}
+		}
+	}
+	if len(c.Pre) > 0 {
+		if c.PreMerge {
+			if err := c09Exec(db, c09Call{K: "merge"}); err != nil {
+				_ = db.Close()
+				return feat, &kvh.Fail{Sig: "internal-error", Msg: fmt.Sprintf("prehistory (single goroutine): %v", err)}
+			}
+		}
+		if c.PreReopen {
+			// the first reads of the goroutines hit files this process has opened but not yet read
+			if err := db.Close(); err != nil {
+				return feat, &kvh.Fail{Sig: "close-error", Msg: err.Error()}
+			}
+			if db, err = kv.Open(c.Opt.KV(dir)); err != nil {
+				return feat, &kvh.Fail{Sig: "open-error", Msg: "Open after the prehistory: " + err.Error()}
+			}
+			feat["goroutines-start-on-restarted-db"] = true
+			if c.PreMerge {
+				feat["goroutines-start-on-adopted-merge"] = true
+			}
+		}
+	}
 	raceBefore := raceLogSize()
 	var wg sync.WaitGroup
 	var firstErr, firstPanic atomic.Value
@@ -332,6 +363,20 @@ func TestC09(t *testing.T) {
 				prog = append(prog, genC09Call(t, nk, false))
 			}
 			c.Progs = append(c.Progs, prog)
+		}
+		if kvh.Pct(t, 35, "prehistory") {
+			for i, n := 0, 4+kvh.U(t, 24, "npre"); i < n; i++ {
+				call := c09Call{K: "put", Key: c09Keys[kvh.U(t, nk, "prekey")], VLen: 1 + kvh.U(t, 300, "prevlen")}
+				if kvh.Pct(t, 20, "predel") {
+					call = c09Call{K: "del", Key: call.Key}
+				}
+				c.Pre = append(c.Pre, call)
+			}
+			c.PreMerge = kvh.Pct(t, 60, "premerge")
+			c.PreReopen = kvh.Pct(t, 85, "prereopen")
+			if kvh.Pct(t, 40, "premmap") {
+				c.Opt.IO = 1
+			}
 		}
 		kvh.SetInFlight(&kvh.InFlight{Property: "C09", Case: func() any { return c }})
 		defer kvh.SetInFlight(nil)
